@@ -322,4 +322,82 @@ def signerRows : List Use := [
   ⟨"external_apps/bid/bid_action.OwnerDecision.Signers", "o.Owner"⟩
 ]
 
+
+
+/-! ### Pinned sources: the functions the Lean models port by hand. Each row is the function and a
+    hash of its normalised source (comments / layout removed) at the commit the port was made and
+    validated against. An edit of a ported function changes the regenerated row and has to be
+    acknowledged here after the model was re-validated. -/
+
+def pinnedOf (t : List Use) (names : List String) : List Use := t.filter (fun r => names.contains r.fn)
+
+def pinnedStore : List Use := [
+  ⟨"storage.ChainState.Commit", "fa7aa151718d"⟩,
+  ⟨"storage.ChainState.Delete", "954e612ccfe4"⟩,
+  ⟨"storage.ChainState.Exists", "f924f73a99a4"⟩,
+  ⟨"storage.ChainState.Get", "efe6e4f0fb49"⟩,
+  ⟨"storage.ChainState.Set", "18c7954e82a3"⟩,
+  ⟨"storage.ChainState.loadDB", "a124ab61ba6c"⟩,
+  ⟨"storage.GasStore.Delete", "b2db44f3c5ee"⟩,
+  ⟨"storage.GasStore.Exists", "b5ebf09b6eaf"⟩,
+  ⟨"storage.GasStore.Get", "8b7efdc0e92a"⟩,
+  ⟨"storage.GasStore.Set", "9362c0dfbe01"⟩,
+  ⟨"storage.State.BeginTxSession", "9cdb6edd6c7c"⟩,
+  ⟨"storage.State.Commit", "a13b3e8a9c69"⟩,
+  ⟨"storage.State.CommitTxSession", "f8fb166d4f14"⟩,
+  ⟨"storage.State.Delete", "4246b77b0d19"⟩,
+  ⟨"storage.State.DiscardTxSession", "b0dd7d580d62"⟩,
+  ⟨"storage.State.Exists", "76065d6540a4"⟩,
+  ⟨"storage.State.Get", "0031d02acd5e"⟩,
+  ⟨"storage.State.Iterate", "fc4a0187a7f4"⟩,
+  ⟨"storage.State.IterateRange", "0662e131e08a"⟩,
+  ⟨"storage.State.Set", "837ebbd620ae"⟩,
+  ⟨"storage.State.Write", "b9b8658c4407"⟩,
+  ⟨"storage.State.deleted", "28ea826de789"⟩,
+  ⟨"storage.State.rawCache", "0d5f82253f80"⟩,
+  ⟨"storage.cacheSession.Commit", "a4bdab4276d3"⟩,
+  ⟨"storage.cacheSession.Delete", "aa14baacfa77"⟩,
+  ⟨"storage.cacheSession.Exists", "6c26e2586b2b"⟩,
+  ⟨"storage.cacheSession.Get", "0fd39dd18e97"⟩,
+  ⟨"storage.cacheSession.Set", "1f71ce3abdaf"⟩,
+  ⟨"storage.gasCalculator.Consume", "16f3723657bd"⟩,
+  ⟨"storage.isTombstone", "0f5b6f16da58"⟩,
+  ⟨"storage.sessionCache.BeginSession", "18f59e62b38e"⟩,
+  ⟨"storage.sessionCache.Delete", "7d299781649d"⟩,
+  ⟨"storage.sessionCache.Exists", "d5f9e790c332"⟩,
+  ⟨"storage.sessionCache.Get", "57d56f96ca2e"⟩,
+  ⟨"storage.sessionCache.Iterate", "5ed52239efe2"⟩,
+  ⟨"storage.sessionCache.Set", "32a0235275b3"⟩
+]
+
+def pinnedShell : List Use := [
+  ⟨"app.App.GetTxFromCache", "873fb08129f6"⟩,
+  ⟨"app.App.VerifyCache", "40f37f368782"⟩,
+  ⟨"app.App.commitor", "be77335cc296"⟩,
+  ⟨"app.App.infoServer", "65fd350ed923"⟩,
+  ⟨"app.App.txChecker", "dc9d37957479"⟩,
+  ⟨"app.App.txDeliverer", "435828573be7"⟩
+]
+
+def pinnedLedger : List Use := [
+  ⟨"action.Amount.IsValid", "5c466d054d42"⟩,
+  ⟨"action.Amount.ToCoin", "8753ed279e9d"⟩,
+  ⟨"action.Amount.ToCoinWithBase", "771405e05d43"⟩,
+  ⟨"action.BasicFeeHandling", "0efa9aa29884"⟩,
+  ⟨"action.StakingPayerFeeHandling", "7ab8b33e9544"⟩,
+  ⟨"action/transfer.runSendPool", "85744aa41bde"⟩,
+  ⟨"action/transfer.runTx", "fbaaaf735eae"⟩,
+  ⟨"data/balance.Coin.IsValid", "3ce24331656d"⟩,
+  ⟨"data/balance.Coin.Minus", "a7acd398966a"⟩,
+  ⟨"data/balance.Coin.Plus", "9faff75e435a"⟩,
+  ⟨"data/balance.Store.AddToAddress", "0f8462eea153"⟩,
+  ⟨"data/balance.Store.MinusFromAddress", "93cf6d52be0d"⟩
+]
+
+def pinnedSig : List Use := [
+  ⟨"action.RawTx.RawBytes", "9f0a69e62e6c"⟩,
+  ⟨"action.SignedTx.SignedBytes", "0f2d9b6caa3d"⟩,
+  ⟨"action.ValidateBasic", "94edf4483a09"⟩
+]
+
 end OLP.Expect
